@@ -35,6 +35,7 @@ const (
 	cBlockPooled
 	cBlockPooledBare // pooled result, block type only (what most built-in slots do)
 	cBlockPooledMsg  // pooled result, block type + message
+	cWait            // an own "should wait" result: neither pass nor block, the chain goes on
 	cPanic
 )
 
@@ -124,6 +125,8 @@ func (c *checkSlot) Check(ctx *base.EntryContext) *base.TokenResult {
 		r := ctx.RuleCheckResult
 		r.ResetToBlockedWithMessage(base.BlockTypeHotSpotParamFlow, "msg:"+c.id)
 		return r
+	case cWait:
+		return base.NewTokenResultShouldWait(1)
 	}
 	panic("check " + c.id)
 }
@@ -402,7 +405,7 @@ func run(c *props.Ctx) {
 		np, ns = 3, 3
 	}
 	preps := enumSpecs(np, 2)
-	checks := enumSpecs(3, 7)
+	checks := enumSpecs(3, 8)
 	stats := enumSpecs(ns, 4)
 	c.R.Bounds["max_prepare_slots"] = np
 	c.R.Bounds["max_rule_check_slots"] = 3
